@@ -8,8 +8,8 @@ set -e
 N="${1:?name}"; W=/tmp/ag-$N
 rm -rf "$W"; git -C /repo worktree prune; mkdir -p "$W"
 git -C /repo worktree add --detach "$W/repo" HEAD >/dev/null 2>&1
-cp -r /verif/sim "$W/sim"
-cp -r /verif/target "$W/target"
+cp -a /verif/sim "$W/sim"
+cp -a /verif/target "$W/target"
 sed -i "s#/repo#$W/repo#g" "$W/sim/Cargo.toml"
 sed -i "s#/verif/target#$W/target#g" "$W/sim/.cargo/config.toml"
 mkdir -p "$W/vd/evidence" "$W/vd/replays" "$W/vd/target" "$W/out"
